@@ -23,7 +23,7 @@ use linfa::{DatasetBase, Float};
 use linfa_clustering::{GaussianMixtureModel, GmmError, GmmInitMethod};
 use lvmc_core::refmath::{self, Mat};
 use lvmc_core::{guarded, json, par_sweep, Ctx, Level, Value, Violation};
-use ndarray::Array2;
+use ndarray::{s, Array2, ArrayBase, Data, Ix2, ShapeBuilder};
 use rand::SeedableRng;
 use rand_xoshiro::Xoshiro256Plus;
 use serde::{Deserialize, Serialize};
@@ -443,6 +443,10 @@ fn do_fit<F: Float>(case: &Case, cfg: &Cfg, max_iter: u64) -> Result<Result<Gaus
     let n = case.data.len();
     let d = case.data[0].len();
     let rec = Array2::from_shape_fn((n, d), |(i, j)| F::cast(case.data[i][j]));
+    fit_records(case, cfg, max_iter, rec)
+}
+
+fn fit_records<F: Float, D: Data<Elem = F>>(case: &Case, cfg: &Cfg, max_iter: u64, rec: ArrayBase<D, Ix2>) -> Result<Result<GaussianMixtureModel<F>, GmmError>, String> {
     let ds = DatasetBase::from(rec);
     let init = match case.init.as_str() {
         "kmeans" => GmmInitMethod::KMeans,
@@ -492,6 +496,10 @@ fn run_fit<F: Float>(case: &Case, cfg: &Cfg, t: &Tols, cnt: &mut Cnt, viols: &mu
     let cj = |at: Value| single_case_json(case, cfg, at);
     cnt.add("fits", 1);
     let cfg_txt = cfg_text(case, cfg);
+    // sums over n rows: the tolerances of the accumulated quantities grow with n beyond the 60 rows
+    // they were stated for (unchanged for every dataset of <= 60 rows)
+    let ns = (n as f64 / 60.0).max(1.0);
+    let t = &Tols { wsum: t.wsum * ns, moment: t.moment * ns, boxr: t.boxr * ns, ..*t };
 
     let fit = do_fit::<F>(case, cfg, cfg.max_iter);
     let model = match fit {
@@ -890,6 +898,193 @@ fn posterior(wl: &[f64]) -> Vec<f64> {
     wl.iter().map(|v| (v - lse).exp()).collect()
 }
 
+const LAYOUTS: [&str; 4] = ["f_order_owned", "transposed_view_of_feature_major", "reversed_rows_view_of_reversed_copy", "every_second_row_view_nan_filler"];
+
+/// Calls `f` with the logical matrix `m` stored in the named memory layout.
+fn with_layout<F: Float, R>(m: &Array2<F>, lay: &str, f: &mut dyn FnMut(ndarray::ArrayView2<F>) -> R) -> R {
+    let (n, d) = m.dim();
+    match lay {
+        "transposed_view_of_feature_major" => {
+            let t = Array2::from_shape_fn((d, n), |(j, i)| m[(i, j)]);
+            f(t.t())
+        }
+        "reversed_rows_view_of_reversed_copy" => {
+            let r = Array2::from_shape_fn((n, d), |(i, j)| m[(n - 1 - i, j)]);
+            f(r.slice(s![..;-1, ..]))
+        }
+        "every_second_row_view_nan_filler" => {
+            let big = Array2::from_shape_fn((2 * n, d), |(i, j)| if i % 2 == 0 { m[(i / 2, j)] } else { F::nan() });
+            f(big.slice(s![..;2, ..]))
+        }
+        other => panic!("unknown layout {}", other),
+    }
+}
+
+fn f_order<F: Float>(m: &Array2<F>) -> Array2<F> {
+    let mut a = Array2::zeros(m.dim().f());
+    a.assign(m);
+    a
+}
+
+fn model_params<F: Float>(m: &GaussianMixtureModel<F>) -> Vec<f64> {
+    m.weights().iter().chain(m.means().iter()).chain(m.covariances().iter()).chain(m.precisions().iter()).map(|&v| f64_of(v)).collect()
+}
+
+/// The records given to fit and the observations given to predict / predict_proba in five memory
+/// layouts of the same logical matrix: results must not depend on the layout.
+fn run_layout<F: Float>(case: &Case, cfg: &Cfg, t: &Tols, cnt: &mut Cnt, viols: &mut Vec<Violation>) -> bool {
+    let n = case.data.len();
+    let d = case.data[0].len();
+    let k = case.n_clusters;
+    let cj = |at: Value| single_case_json(case, cfg, at);
+    let cfg_txt = cfg_text(case, cfg);
+    let eps = if case.float == "f32" { f32::EPSILON as f64 } else { f64::EPSILON };
+    cnt.add("fits", 1);
+    let rec: Array2<F> = Array2::from_shape_fn((n, d), |(i, j)| F::cast(case.data[i][j]));
+    let base = match fit_records(case, cfg, cfg.max_iter, rec.clone()) {
+        Err(p) => {
+            viols.push(Violation::new("gmm.fit.panic", format!("fit panicked ({}): {}", cfg_txt, p), cj(json!({"phase": "fit"}))));
+            return false;
+        }
+        Ok(r) => r,
+    };
+    // ---- fit in every layout
+    for lay in LAYOUTS {
+        cnt.add("layout_fits", 1);
+        let r = if lay == "f_order_owned" { fit_records(case, cfg, cfg.max_iter, f_order(&rec)) } else { with_layout(&rec, lay, &mut |v| fit_records(case, cfg, cfg.max_iter, v)) };
+        let at = cj(json!({"phase": "layout_fit", "layout": lay}));
+        match (&base, r) {
+            (_, Err(p)) => viols.push(Violation::new("gmm.fit.panic", format!("{}: fit on records in layout {} panicked: {}", cfg_txt, lay, p), at)),
+            (Err(e0), Ok(Err(e1))) => {
+                if error_kind(e0) != error_kind(&e1) {
+                    viols.push(Violation::new("gmm.fit.layout_dependence", format!("{}: standard layout gives Err({}), layout {} gives Err({})", cfg_txt, e0, lay, e1), at));
+                }
+            }
+            (Err(e0), Ok(Ok(_))) => viols.push(Violation::new("gmm.fit.layout_dependence", format!("{}: standard layout gives Err({}), layout {} gives a model", cfg_txt, e0, lay), at)),
+            (Ok(_), Ok(Err(e1))) => viols.push(Violation::new("gmm.fit.layout_dependence", format!("{}: standard layout gives a model, layout {} gives Err({})", cfg_txt, lay, e1), at)),
+            (Ok(m0), Ok(Ok(m1))) => {
+                let (p0, p1) = (model_params(m0), model_params(&m1));
+                if p0 == p1 {
+                    cnt.add("layout_fits_bit_identical", 1);
+                }
+                // same data, same seed: only the rounding order may differ (amplified by the EM iterations)
+                let scale = p0.iter().fold(1.0f64, |s, v| s.max(v.abs()));
+                let dev = p0.iter().zip(&p1).fold(0.0f64, |s, (a, b)| s.max((a - b).abs()));
+                cnt.max("max_log10_layout_fit_deviation_x100_plus_2000", if dev > 0.0 { ((dev / scale).log10() * 100.0 + 2000.0).max(0.0) as u64 } else { 0 });
+                if p0.len() != p1.len() || !(dev <= 1e6 * eps * scale) {
+                    viols.push(Violation::new(
+                        "gmm.fit.layout_dependence",
+                        format!("{}: the model fitted on records in layout {} differs from the standard-layout model by {:e} (largest parameter {:e}): weights {:?} vs {:?}", cfg_txt, lay, dev, scale, m1.weights().to_vec().iter().map(|&v| f64_of(v)).collect::<Vec<_>>(), m0.weights().to_vec().iter().map(|&v| f64_of(v)).collect::<Vec<_>>()),
+                        at,
+                    ));
+                }
+            }
+        }
+    }
+    let model = match base {
+        Ok(m) => m,
+        Err(e) => {
+            cnt.add(&format!("fit_err.{}", error_kind(&e)), 1);
+            return false;
+        }
+    };
+    cnt.add("fits_ok", 1);
+    // ---- predict / predict_proba in every layout: training rows, means, points 10 / 39 / 100 sd out
+    let w: Vec<f64> = model.weights().iter().map(|&v| f64_of(v)).collect();
+    let mu: Mat = model.means().rows().into_iter().map(|r| r.iter().map(|&v| f64_of(v)).collect()).collect();
+    let cov: Vec<Mat> = model.covariances().outer_iter().map(|m| m.rows().into_iter().map(|r| r.iter().map(|&v| f64_of(v)).collect()).collect()).collect();
+    let mut qs: Vec<Vec<f64>> = case.data.clone();
+    qs.extend(mu.iter().cloned());
+    for c in 0..k {
+        for s in [10.0, 39.0, 100.0] {
+            for (_, u) in dirs(d) {
+                qs.push((0..d).map(|j| mu[c][j] + s * cov[c][j][j].abs().sqrt() * u[j]).collect());
+            }
+        }
+    }
+    let nq = qs.len();
+    let qarr: Array2<F> = Array2::from_shape_fn((nq, d), |(i, j)| F::cast(qs[i][j]));
+    let q64: Mat = (0..nq).map(|i| (0..d).map(|j| f64_of(qarr[(i, j)])).collect()).collect();
+    let (p0, l0) = match guarded(|| (model.predict_proba(&qarr), model.predict(&qarr))) {
+        Ok(x) => x,
+        Err(p) => {
+            viols.push(Violation::new("gmm.predict.panic", format!("{}: predict / predict_proba on {} standard-layout queries panicked: {}", cfg_txt, nq, p), cj(json!({"phase": "query_batch"}))));
+            return true;
+        }
+    };
+    // bound on the effect of a different summation order: relative d * eps on every squared Mahalanobis distance
+    let pinv: Vec<Option<Mat>> = cov.iter().map(|s| refmath::inverse(s)).collect();
+    let tol_of = |x: &[f64]| -> Option<f64> {
+        let mut worst = 0.0f64;
+        for c in 0..k {
+            let p = pinv[c].as_ref()?;
+            let diff: Vec<f64> = (0..d).map(|j| x[j] - mu[c][j]).collect();
+            let maha = refmath::dot(&diff, &refmath::matvec(p, &diff)).abs();
+            worst = worst.max(maha + w[c].ln().abs() + 50.0);
+        }
+        Some(16.0 * eps * (d * k) as f64 * worst + 4.0 * eps)
+    };
+    for lay in LAYOUTS {
+        cnt.add("layout_query_batches", 1);
+        let r = if lay == "f_order_owned" {
+            let a = f_order(&qarr);
+            guarded(|| (model.predict_proba(&a), model.predict(&a)))
+        } else {
+            with_layout(&qarr, lay, &mut |v| guarded(|| (model.predict_proba(&v), model.predict(&v))))
+        };
+        let (p1, l1) = match r {
+            Ok(x) => x,
+            Err(p) => {
+                viols.push(Violation::new("gmm.predict.panic", format!("{}: predict / predict_proba on queries in layout {} panicked: {}", cfg_txt, lay, p), cj(json!({"phase": "layout_query", "layout": lay}))));
+                continue;
+            }
+        };
+        if p1.dim() != p0.dim() || l1.len() != l0.len() {
+            viols.push(Violation::new("gmm.predict_proba.layout_dependence", format!("{}: layout {}: shapes {:?} / {} instead of {:?} / {}", cfg_txt, lay, p1.dim(), l1.len(), p0.dim(), l0.len()), cj(json!({"phase": "layout_query", "layout": lay}))));
+            continue;
+        }
+        if p1 == p0 && l1 == l0 {
+            cnt.add("layout_query_batches_bit_identical", 1);
+        }
+        let mut bad_p: Option<(usize, String)> = None;
+        let mut bad_l: Option<(usize, String)> = None;
+        for i in 0..nq {
+            cnt.add("layout_queries", 1);
+            let a: Vec<f64> = p0.row(i).iter().map(|&v| f64_of(v)).collect();
+            let b: Vec<f64> = p1.row(i).iter().map(|&v| f64_of(v)).collect();
+            let same_bits = a.iter().zip(&b).all(|(x, y)| x == y || (x.is_nan() && y.is_nan()));
+            if !same_bits {
+                match tol_of(&q64[i]) {
+                    None => cnt.add("layout_queries_indeterminate_singular_covariance", 1),
+                    Some(tol) => {
+                        let dev = a.iter().zip(&b).fold(0.0f64, |s, (x, y)| s.max((x - y).abs()));
+                        if !(dev <= tol) && bad_p.is_none() {
+                            bad_p = Some((i, format!("query {:?}: predict_proba {:?} in layout {} but {:?} in standard layout (|diff| {:e} > {:e})", q64[i], b, lay, a, dev, tol)));
+                        }
+                    }
+                }
+            }
+            if l0[i] != l1[i] {
+                // a different label is admissible only between components tied within the rounding bound
+                let tol = tol_of(&q64[i]).unwrap_or(f64::INFINITY);
+                let gap = (a[l0[i].min(k - 1)] - a[l1[i].min(k - 1)]).abs();
+                if gap <= tol {
+                    cnt.add("layout_labels_indeterminate_tie", 1);
+                } else if bad_l.is_none() {
+                    bad_l = Some((i, format!("query {:?}: predict = {} in layout {} but {} in standard layout (predict_proba row {:?})", q64[i], l1[i], lay, l0[i], a)));
+                }
+            }
+        }
+        if let Some((i, what)) = bad_p {
+            viols.push(Violation::new("gmm.predict_proba.layout_dependence", format!("{}: {}", cfg_txt, what), cj(json!({"phase": "layout_query", "layout": lay, "query_index": i}))));
+        }
+        if let Some((i, what)) = bad_l {
+            viols.push(Violation::new("gmm.predict.layout_dependence", format!("{}: {}", cfg_txt, what), cj(json!({"phase": "layout_query", "layout": lay, "query_index": i}))));
+        }
+    }
+    true
+}
+
 /// Outcome-kind oracle for "failure to converge is reported as an error" without a reference EM.
 /// (1) With max_n_iterations = 1 no run can converge (the first lower-bound change is measured
 /// against -inf), so fit must return Err. (2) EM is deterministic for a fixed seed and the rng is only
@@ -956,6 +1151,8 @@ fn run_case(case: &Case, viols: &mut Vec<Violation>) -> (Cnt, u64, u64) {
     for cfg in case.configs() {
         let nt = match (case.kind.as_str(), case.float.as_str()) {
             ("ladder", _) => run_ladder(case, &cfg, &mut cnt, viols),
+            ("layout", "f32") => run_layout::<f32>(case, &cfg, &TOLS_F32, &mut cnt, viols),
+            ("layout", _) => run_layout::<f64>(case, &cfg, &TOLS_F64, &mut cnt, viols),
             (_, "f32") => run_fit::<f32>(case, &cfg, &TOLS_F32, &mut cnt, viols) && case.n_clusters >= 2,
             _ => run_fit::<f64>(case, &cfg, &TOLS_F64, &mut cnt, viols) && case.n_clusters >= 2,
         };
@@ -967,6 +1164,8 @@ fn run_case(case: &Case, viols: &mut Vec<Violation>) -> (Cnt, u64, u64) {
     // statistics of the f32 sweep and of the budget ladder are kept apart
     let pfx = if case.kind == "ladder" {
         "ladder."
+    } else if case.kind == "layout" {
+        "layout."
     } else if case.float == "f32" {
         "f32."
     } else {
@@ -1003,6 +1202,8 @@ fn main() {
          plus the family duplicates = {20, 60} rows that are copies of only 1..3 distinct points inside the box [5,9]x[3,7]x[4,8] (origin outside), features 1..2 (quick) / 1..3 (thorough), fitted with 1..4 components (more components than distinct points empties a component) and reg_covar {0,1e-9,1e-6,1e-3,0.1}; every member is run; \
          per successful fit the query menu = every training row, every component mean, and mean_k + t u for every component k, every u in {+-e_j} and {(+-1,..,+-1)/sqrt(d)}, t such that the Mahalanobis distance to component k is exactly s, s in {10,30,35,38,39,100,1e3,1e6} (f32: {10,12,14,16,20,25,30,38,39,100,1e3,1e6}, covering the f32 exp underflow band). \
          f32 sweep: GaussianMixtureModel<f32> on the separated / overlapping members with <= 2 features, components 1..3, both initialisers, seeds 0..3 / 0..7, reg_covar {1e-6,1e-3,0.1}, same remaining grid, same oracles with f32 tolerances (reference in f64 from the published f32 parameters and the f32-rounded data / queries). \
+         memory layouts: separated / overlapping / anisotropic members with 2..3 (quick) / 2..4 (thorough) features, k 1..3, both initialisers, seeds 0..1 / 0..3, reg_covar {1e-6,1e-3}, f64 and f32: the records given to fit and the observations given to predict / predict_proba (training rows, means, points 10 / 39 / 100 sd out) as column-major owned array, transposed view of a feature-major array, reversed-row view of a reversed copy, every-second-row view of an array whose filler rows are NaN, each compared with the standard-layout run. \
+         size thresholds: members replicated to 1025 / 4097 rows (2 quick, 9 thorough incl. 2 in f32), k 2..3, both initialisers, seeds 0..1 / 0..3, reg_covar {1e-6,1e-3}, complete oracle set with every training row as a query. \
          budget ladder (outcome kind): separated / overlapping / anisotropic members with <= 2 (quick) / 3 (thorough) features, same k / init / seeds, reg_covar {1e-6,0.1}, tolerance {1e-3,1e-5}, n_runs {1,3}, max_n_iterations m in {1,2,3,5,10}: m = 1 must be Err; with n_runs = 1 an Ok at m must be reproduced bit-identically by m + 10. \
          evaluation = one fit with all its parameter and query oracles; non-trivial = the fit returned a model with >= 2 components (an Err is an accepted outcome and counted per error kind); distinct by construction of the grid.",
     );
@@ -1014,6 +1215,8 @@ fn main() {
     ctx.assume("reference posterior: own Cholesky of the published covariances, weighted log densities, max-shifted log-sum-exp; discrepancy bound per component 1e-13 * cond * (mahalanobis^2 + d) + 1e-13 |log density|; probabilities compared with k * bound + 1e-9 when the bound <= 1e-4 (else indeterminate), only where the largest weighted log density is above ln(f64::MIN_POSITIVE) + 1 + min(bound, 5 % of its value) (the same slack delimits the regimes of the three narrow signatures: all-inf row only below that line, finite row with a wrong sum only between it and -745.2 - slack); predict must lie within 2 * bound + 1e-9 (1 + |max|) of the maximal reference weighted log density (else violation; smaller non-zero gaps indeterminate)");
     ctx.assume("an Err from fit (NotConverged, EmptyCluster, LinalgError, KMeansError, MinMaxError, LowerBoundError) is an accepted outcome; InvalidValue for the valid grid, a panic, or an Ok model with non-finite parameters is a violation");
     ctx.assume("f32 sweep tolerances: rows / weights sum 1e-5 / 5e-5, bounding box and moments 5e-5 relative (moment floor (1e-4 (1 + max|x|))^2), symmetry 1e-5, diagonal >= reg (1 - 1e-5), |P S - I| <= 1e-5 cond + 1e-5 (indeterminate above 1e-2), posterior bound 1e-5 * cond * (mahalanobis^2 + d) + 1e-5 |log density| (compared with k * bound + 1e-5, indeterminate above 1e-2), tie set 1e-6, arg-max margin 2 * bound + 1e-6 (1 + |max|), exp subnormal below -87.34 and 0 below -104; a covariance whose f64 Cholesky fails but whose smallest eigenvalue is above -1e-5 * largest is indeterminate");
+    ctx.assume("layouts: fitted parameters must agree with the standard-layout fit within 1e6 * eps of the largest parameter (same data and seed; only the rounding order may differ, amplified by the EM iterations; an Err must stay the same kind of Err); predict_proba rows must agree within 16 eps d k (max squared Mahalanobis distance + |ln w| + 50) + 4 eps (bit-identical rows are counted), predict labels exactly unless the two probabilities are tied within that bound (indeterminate)");
+    ctx.assume("datasets of more than 60 rows: the tolerances of the quantities accumulated over the rows (weights sum, bounding box, moment identities) are multiplied by n / 60");
     ctx.assume("budget ladder: fit is deterministic for a fixed seed (the rng is consumed only by the initialisation, cloned from the parameters at every call) and with n_runs = 1 an Ok result means the EM loop broke at an iteration < max_n_iterations, so a larger budget is never used: models compared with == on every f64 of weights, means, covariances, precisions; with max_n_iterations = 1 the only lower-bound change is measured against -inf (or is NaN), which is never below a tolerance");
 
     let members = catalogue(ctx.thorough());
@@ -1088,6 +1291,85 @@ fn main() {
             }
         }
     }
+    // memory layouts of the records (fit) and of the observations (predict / predict_proba)
+    let mut layout_members = 0usize;
+    for m in &members {
+        let dm = m.data[0].len();
+        if !((m.family == "separated" || m.family == "overlapping" || m.family == "anisotropic") && (2..=ctx.pick(3, 4)).contains(&dm)) {
+            continue;
+        }
+        layout_members += 1;
+        for k in 1..=3usize {
+            for init in ["kmeans", "random"] {
+                for seed in 0..ctx.pick(2u64, 4u64) {
+                    for float in ["f64", "f32"] {
+                        cases.push(Case {
+                            dataset: m.id.clone(),
+                            family: m.family.to_string(),
+                            data: m.data.clone(),
+                            n_clusters: k,
+                            init: init.to_string(),
+                            seeds: vec![seed],
+                            reg_covars: vec![1e-6, 1e-3],
+                            tolerances: vec![1e-3],
+                            n_runs: vec![1],
+                            max_iters: vec![100],
+                            kind: "layout".to_string(),
+                            float: float.to_string(),
+                        });
+                    }
+                }
+            }
+        }
+    }
+    ctx.extra("layout_catalogue_members", json!(layout_members));
+    // size thresholds: catalogue members replicated (with a small deterministic offset per replica) to
+    // 1025 / 4097 rows, through the complete oracle set of the sweep
+    let mut big: Vec<(String, &Member, usize, &str)> = Vec::new();
+    let find = |id: &str| members.iter().find(|m| m.id == id).expect("catalogue member");
+    big.push(("separated-d2-b3-r1".into(), find("separated-d2-b3-r1"), 1025, "f64"));
+    big.push(("overlapping-d3-b2-r0".into(), find("overlapping-d3-b2-r0"), 4097, "f64"));
+    if ctx.thorough() {
+        big.push(("separated-d2-b3-r1".into(), find("separated-d2-b3-r1"), 4097, "f64"));
+        big.push(("overlapping-d3-b2-r0".into(), find("overlapping-d3-b2-r0"), 1025, "f64"));
+        big.push(("anisotropic-d4-b3-r1".into(), find("anisotropic-d4-b3-r1"), 1025, "f64"));
+        big.push(("anisotropic-d4-b3-r1".into(), find("anisotropic-d4-b3-r1"), 4097, "f64"));
+        big.push(("separated-d6-b2-r0".into(), find("separated-d6-b2-r0"), 4097, "f64"));
+        big.push(("separated-d2-b3-r1".into(), find("separated-d2-b3-r1"), 1025, "f32"));
+        big.push(("overlapping-d3-b2-r0".into(), find("overlapping-d3-b2-r0"), 4097, "f32"));
+    }
+    let mut big_ids = Vec::new();
+    for (id, m, nbig, float) in &big {
+        let n0 = m.data.len();
+        let data: Vec<Vec<f64>> = (0..*nbig)
+            .map(|i| {
+                let r = i / n0;
+                m.data[i % n0].iter().enumerate().map(|(j, &v)| ((v + 0.001 * (((r * (j + 1)) % 7) as f64 - 3.0)) * 1e6).round() / 1e6).collect()
+            })
+            .collect();
+        big_ids.push(format!("{}-x{} ({})", id, nbig, float));
+        for k in 2..=3usize {
+            for init in ["kmeans", "random"] {
+                for seed in 0..ctx.pick(2u64, 4u64) {
+                    cases.push(Case {
+                        dataset: format!("{}-x{}", id, nbig),
+                        family: m.family.to_string(),
+                        data: data.clone(),
+                        n_clusters: k,
+                        init: init.to_string(),
+                        seeds: vec![seed],
+                        reg_covars: vec![1e-6, 1e-3],
+                        tolerances: vec![1e-3],
+                        n_runs: vec![1],
+                        max_iters: vec![100],
+                        kind: "sweep".to_string(),
+                        float: float.to_string(),
+                    });
+                }
+            }
+        }
+    }
+    ctx.extra("replicated_big_members", json!(big_ids));
     ctx.extra("f32_catalogue_members", json!(f32_members));
     ctx.extra("ladder_catalogue_members", json!(ladder_members));
     let expected_fits: u64 = cases.iter().map(|c| c.configs().len() as u64).sum();
@@ -1125,7 +1407,7 @@ fn main() {
         }
     }
     ctx.extra("family_x_k_x_init_combinations_with_a_successful_fit", json!(families_ok.lock().unwrap().len()));
-    let fits_run = ["fits", "f32.fits", "ladder.fits"].iter().map(|k| t.0.get(*k).cloned().unwrap_or(0)).sum::<u64>();
+    let fits_run = ["fits", "f32.fits", "ladder.fits", "layout.fits"].iter().map(|k| t.0.get(*k).cloned().unwrap_or(0)).sum::<u64>();
     if fits_run != expected_fits {
         ctx.capped(&format!("{} of {} enumerated fits were run", fits_run, expected_fits));
     }
